@@ -21,6 +21,7 @@ import (
 type Scenario struct {
 	Property string   `json:"property"`
 	Profile  string   `json:"profile"`
+	Seed     uint64   `json:"seed"`
 	Knobs    Knobs    `json:"knobs"`
 	Setup    []Op     `json:"setup,omitempty"`
 	Clients  [][]Op   `json:"clients,omitempty"`
@@ -82,6 +83,7 @@ type runner struct {
 	phase   string
 	running int
 	crashes int
+	doneLines []string
 }
 
 func (r *runner) curInc() *Incarnation {
@@ -122,7 +124,9 @@ func (r *runner) execOp(op *Op, phase string) {
 	if len(body) > 160 {
 		body = body[:160] + "..."
 	}
-	r.w.logf("done %s %s -> %s %d %s hit=%v", op.ID, op.Kind, res.Out.Class, res.Out.Status, res.Out.Code, res.Out.Hit)
+	r.w.mu.Lock()
+	r.doneLines = append(r.doneLines, fmt.Sprintf("done %s %s -> %s %d %s hit=%v", op.ID, op.Kind, res.Out.Class, res.Out.Status, res.Out.Code, res.Out.Hit))
+	r.w.mu.Unlock()
 }
 
 // runPhase runs client op lists concurrently under the scheduler until all are finished or the system
@@ -169,6 +173,7 @@ func (r *runner) runPhase(phase string, clients [][]Op, explore *Explore) bool {
 		if r.w.Step() {
 			idle = 0
 			quantum = 50 * time.Millisecond
+			synctest.Wait()
 			r.afterStep()
 			continue
 		}
@@ -192,6 +197,14 @@ func (r *runner) runPhase(phase string, clients [][]Op, explore *Explore) bool {
 
 // afterStep examines the commits made by the last step (commit-sequence invariants).
 func (r *runner) afterStep() {
+	r.w.mu.Lock()
+	lines := r.doneLines
+	r.doneLines = nil
+	r.w.mu.Unlock()
+	sort.Strings(lines)
+	for _, l := range lines {
+		r.w.logf("%s", l)
+	}
 	recs := r.w.db.CommitsSince(r.seenCommits)
 	for _, rec := range recs {
 		r.seenCommits++
@@ -280,9 +293,10 @@ func RunScenario(t *testing.T, sc *Scenario, plan *Plan, ex *ExploreCfg) (res *R
 
 func runInBubble(t *testing.T, sc *Scenario, plan *Plan, ex *ExploreCfg, res *RunResult) {
 	w := NewWorld()
-	seed := uint64(1)
+	seed := sc.Seed
 	if ex != nil {
 		seed = ex.Seed
+		sc.Seed = seed
 	}
 	base := NewRNG(seed)
 	rand.Seed(int64(base.Derive(100).Uint64() >> 1))
@@ -352,7 +366,9 @@ func runInBubble(t *testing.T, sc *Scenario, plan *Plan, ex *ExploreCfg, res *Ru
 			r.addV(Violation{sc.Property, "progress-after-faults-stop", fmt.Sprintf("post-phase operations never complete: %v; parked=%v", pending, w.ParkedKeys())})
 		}
 	}
+	synctest.Wait()
 	r.afterStep()
+	sort.SliceStable(r.results, func(i, j int) bool { return r.results[i].Op.ID < r.results[j].Op.ID })
 	// attribute fired faults to ops
 	for _, f := range w.firedAt {
 		if or := r.byID[opIDOf(f.Task)]; or != nil {
@@ -418,7 +434,12 @@ func dedupViolations(vs []Violation) []Violation {
 			out = append(out, v)
 		}
 	}
-	sort.SliceStable(out, func(i, j int) bool { return out[i].Clause < out[j].Clause })
+	sort.SliceStable(out, func(i, j int) bool {
+		if out[i].Clause != out[j].Clause {
+			return out[i].Clause < out[j].Clause
+		}
+		return out[i].Detail < out[j].Detail
+	})
 	return out
 }
 
@@ -468,6 +489,10 @@ func CheckLogOrder(prop string, commits []CommitRec, views map[string]*LedgerVie
 			}
 		}
 		for l, xs := range ids {
+			if v := views[l]; v == nil || v.Feats["HASH_LOGS"] != "SYNC" {
+				// without synchronous hashing nothing in the store contract serialises log insertion
+				continue
+			}
 			sort.Slice(xs, func(i, j int) bool { return xs[i] < xs[j] })
 			if xs[0] <= last[l] {
 				vs = append(vs, Violation{prop, "log-ids-increase-in-commit-order", fmt.Sprintf("ledger %s: commit %d appends log %d after log %d was committed", l, c.Seq, xs[0], last[l])})
